@@ -109,7 +109,7 @@ _p('C15', secs=(25, 420), runs=(200000, 20000000), mix=(4, 8),
 
 _SESS_REAL = ['FIX8::Session (start/process/send/send_batch/send_process/handle_*/heartbeat_service/stop)', 'FIX8::ClientConnection / ServerConnection, FIXReader thread, FIXWriter', 'Timer<Session> thread (simulated clock)', 'MemoryPersister / FilePersister (on simfs)', 'message encode/decode of the compiled FIX4.2 test schema']
 _SESS_STUB = ['counterparty: scripted peer speaking through an independent tag=value codec in the harness', 'socket: SimSock (Poco::Net::StreamSocketImpl subclass) with seeded short reads/writes, EAGAIN, dribble', 'application: handle_application override that calls enforce() exactly as the sample applications do and records deliveries', 'loggers: none (null loggers are accepted by the session)']
-_SESS_ASSUME = COMMON_ASSUME + ['threaded and coroutine process models (the pipelined model cannot be torn down: FIXWriter::stop() pushes NULL into the FastFlow queue, which asserts)', 'scripted messages stay inside plain FIX (printable values, no data fields, no nested groups)', 'session internals (next send/receive numbers, state) are read only at quiescent points']
+_SESS_ASSUME = COMMON_ASSUME + ['threaded and coroutine process models; C16, C17, C18 (and C15, C25) also run the pipelined model, but only in histories that never end or restart the session, because a pipelined connection cannot be torn down (FIXWriter::stop() pushes NULL into the FastFlow queue, which asserts; a pipelined reader that ended by itself leaves its callback thread spinning): such worlds are abandoned and the worker recycled', 'scripted messages stay inside plain FIX (printable values, no data fields, no nested groups)', 'session internals (next send/receive numbers, state) are read only at quiescent points']
 
 _p('C16', secs=(30, 480), runs=(100000, 10000000), mix=(4, 8),
     title='Outbound sequence numbers are consecutive and persisted',
